@@ -407,15 +407,23 @@ pub fn run(mut run: Run) -> ! {
     run.isolate = true;
     run.case_timeout_s = 120.0;
     let quick = run.quick();
-    // quick = chains of <= 2 contexts over the full declaration and constant menus; thorough = chains of <= 3
+    // quick = chains of <= 2 contexts over reduced menus and of <= 1 context over the full menus; thorough = chains of <= 3 over the full menus
     let depth = if quick { 2 } else { 3 };
     run.rule = format!("(a) every model of the C01 families A (cores x context chains x relations x constants x declaration forms, depth {depth}) C (bound feeders x consumers), D (blocks over three variables with different ranges, every context) and I (an integer variable bounded through a * i REL fl(a * k) for 16 coefficients that are inexact in binary floating point x k in -4..4 x 3 relations x both sides x coefficient left/right, alone or chained to a second integer) is analysed through the verif_hooks view of the bounds analysis with EVERY step budget 0..K (K = first budget that is not exhausted; each prefix of the propagation work-list is a stopping point), on the raw and on the normalised constraints; every derived variable range, every published domain (integer rounding applied) and the compiled model's domains must contain the exact range of that variable over the source-feasible set, never be NaN, be non-empty unless infeasibility is recorded, and infeasibility may only be recorded for infeasible models; (b) bounds_of for every core-in-context expression over 9 boxes (finite, half-infinite, infinite, degenerate, negative, integer, non-dyadic) must contain the exact range of the piecewise-linear expression; distinct = model / expression text");
     run.assume("exact source-feasible ranges from the region partition of one continuous variable (other continuous variables on a rational grid: an inner approximation, sound for this one-sided check); tolerance 1e-9 relative, the analyser's own");
-    let sa = family_a_size(depth, false);
-    run.family("A-models-x-step-budgets", sa, move |i, l| {
-        let c = family_a(i, depth, false);
-        check_model(&c, l);
-    });
+    if quick {
+        // chains of <= 2 contexts over the reduced menus, chains of <= 1 context over the full menus
+        let sa2 = family_a_size(2, true);
+        run.family("A2-models-x-step-budgets", sa2, move |i, l| check_model(&family_a(i, 2, true), l));
+        let sa1 = family_a_size(1, false);
+        run.family("A1-models-x-step-budgets", sa1, move |i, l| check_model(&family_a(i, 1, false), l));
+    } else {
+        let sa = family_a_size(depth, false);
+        run.family("A-models-x-step-budgets", sa, move |i, l| {
+            let c = family_a(i, depth, false);
+            check_model(&c, l);
+        });
+    }
     run.family("C-feeders-x-step-budgets", family_c_size(), |i, l| {
         let c = family_c(i);
         check_model(&c, l);
